@@ -133,6 +133,11 @@ def handle_path_command(args: argparse.Namespace) -> None:  # noqa: PLR0912, D10
             raise
         sys.stderr.write(f"name error: {err}\n")
         sys.exit(1)
+    except RecursionError as err:
+        if args.debug:
+            raise
+        sys.stderr.write(f"recursion error: query is nested too deeply: {err}\n")
+        sys.exit(1)
 
     try:
         data = json.load(args.file)
